@@ -152,6 +152,9 @@ def handle (line : String) : Except String Json := do
       ("dbt", jNames (dbtSource c (← match j.getObjVal? "dbtInt" with
         | .ok v => getOptName v
         | .error _ => pure none) parts)),
+      ("dbtOld", jNames (dbtSourceOld c (← match j.getObjVal? "dbtInt" with
+        | .ok v => getOptName v
+        | .error _ => pure none) parts)),
       ("simple", jRes (resolveSimple c parts)),
       ("join", jRes (resolveJoin c parts)),
       ("routeSimple", jRouted (routeSimple c parts)),
